@@ -59,6 +59,8 @@ def r10_c(ctx):
     # the default branch of the dispatcher wraps the token itself
     fd = repo.need_func('reader.read_expr')
     last = strip_doc(fd.node.body)[-1]
+    while isinstance(last, ast.If) and last.orelse:
+        last = last.orelse[-1]          # `... else: return TexText(c)` written as an explicit final branch
     ok = isinstance(last, ast.Return) and isinstance(last.value, ast.Call) and isinstance(last.value.func, ast.Name) \
         and last.value.func.id == 'TexText' and len(last.value.args) == 1 and isinstance(last.value.args[0], ast.Name)
     rr.ob(ok, {'default_branch': norm(last)[:60]})
@@ -71,7 +73,7 @@ def r10_c(ctx):
 def r12_b(ctx):
     repo = ctx.repo
     rr = RuleResult('R12.b', 'a math region is read with the class selected by its opening token, closes on that '
-                    'class\'s closing kind, and its body is read in math mode', floor=4)
+                    'class\'s closing kind, and its body is read in math mode', floor=3)
     fd = repo.need_func('reader.read_math_env')
     ps = fd.params()
     if len(ps) < 2:
